@@ -22,7 +22,8 @@ def reset_fields(case, rsidx, T=None, strictread=False):
     return {"rs": rsidx, "interactive": default_interactive(cfg), "array": bool(cfg.get("array")),
             "linenoopt": bool(cfg.get("yylineno", True)) and cfg.get("yylineno") != "no",
             "bolneeded": any(r["bol"] for r in case.src["rules"]),
-            "rejectmode": bool(T["reject"]) if T else bool(cfg.get("reject")), "strictread": strictread}
+            "rejectmode": bool(T["reject"]) if T else bool(cfg.get("reject")), "strictread": strictread,
+            "reentrant": cfg.get("flavour") in ("r", "c99"), "userwrap": bool(cfg.get("userwrap"))}
 
 
 def gen_script(rng, case, maxops=24, p_op=0.5):
@@ -94,10 +95,12 @@ ENV = dict(ASAN_OPTIONS="detect_leaks=1:abort_on_error=0:exitcode=99",
 
 
 def job_line(job):
+    files = [job["input"]] + list(job.get("files", []))
     rj = json.dumps(dict(job["reset"], sched=",".join(map(str, job["sched"])), ops=ops_csv(job["ops"]),
-                         initsc=job.get("initsc", 0)))[1:-1]
-    return "\t".join([rj, job["input"].hex(), ",".join(map(str, job["sched"])), ops_csv(job["ops"]),
-                      str(job.get("bufsize", 0)), str(job.get("initsc", 0))]) + "\n"
+                         initsc=job.get("initsc", 0), outs=ops_csv(job.get("outs", [])), wraps=ops_csv(job.get("wraps", []))))[1:-1]
+    return "\t".join([rj, ";".join(f.hex() for f in files), ",".join(map(str, job["sched"])), ops_csv(job["ops"]),
+                      str(job.get("bufsize", 0)), str(job.get("initsc", 0)),
+                      ops_csv(job.get("outs", [])), ops_csv(job.get("wraps", []))]) + "\n"
 
 
 def count_resets(tracefile):
@@ -130,7 +133,7 @@ def run_jobs(case, jobs, tracefile, timeout=60, exe=None, extra_env=None):
             crashes += 1
             with open(tracefile, "a") as f:
                 if done <= first:   # died before the job's Reset line was written
-                    f.write(json.dumps({"e": "Reset", "input": [], "bufsize": 0, "lost": True, **jobs[first]["reset"]}) + "\n")
+                    f.write(json.dumps({"e": "Reset", "files": [[]], "bufsize": 0, "lost": True, **jobs[first]["reset"]}) + "\n")
                     done = first + 1
                 f.write(json.dumps({"e": "Crash", "rc": rc, "msg": err[:1500] + " ... " + err[-300:]}) + "\n")
         if done <= first:
@@ -166,3 +169,79 @@ def validate(trace_path, cases_path, timeout=600):
     r = tlc.run("Trace_Scanner", env={"TRACE": trace_path, "CASES": cases_path}, workers=1, timeout=timeout)
     accepted = (r.rc == 0 and r.depth == n + 1)
     return accepted, r, n
+
+
+# ------------------------------------------------------------------ buffer / end-of-input scenarios
+class BufScript:
+    """generates action / outer / yywrap scripts over several input sources and
+    buffers.  Buffer ids are handed out by the harness in creation order; scripts
+    name buffers by small explicit ids (skipped by the harness when no such buffer
+    exists) or by 0 = the most recently created one."""
+
+    def __init__(self, rng, case, nfiles):
+        self.rng = rng; self.c = case; self.nf = nfiles
+        self.nsc = len(case.src["scs"])
+
+    def anybuf(self):
+        return self.rng.choice([0, 1, 2, 2, 3, 4, 5])
+
+    def bufops(self, n=2):
+        out = []
+        for _ in range(n):
+            r = self.rng.random()
+            if r < 0.30:
+                k = self.rng.choice("nnsyz"); out.append((k, self.rng.randrange(self.nf)))
+                if k == "n": out.append((self.rng.choice("wh"), 0))
+            elif r < 0.45: out.append((self.rng.choice("wh"), self.anybuf()))
+            elif r < 0.60: out.append(("j", 0))
+            elif r < 0.70: out.append(("f", self.anybuf()))
+            elif r < 0.78: out.append(("d", self.anybuf()))
+            elif r < 0.84: out.append(("Z", self.rng.randrange(self.nf)))
+            elif r < 0.90: out.append(("r", self.rng.randrange(self.nf)))
+            else: out.append((self.rng.choice("BPOQ"), self.rng.randrange(self.nsc)))
+        return out
+
+    def action_script(self, nact=8, p=0.5):
+        ops = []
+        for _ in range(nact):
+            if self.rng.random() < 0.3:
+                ops.append((self.rng.choice("BPOQ"), self.rng.randrange(self.nsc)))
+            if self.rng.random() < p:
+                ops += self.bufops(self.rng.randint(1, 2))
+            ops.append(("T", 0) if self.rng.random() < 0.25 else ("-", 0))
+        return ops
+
+    def outer_script(self, ncalls=6, p=0.4):
+        ops = []
+        for _ in range(ncalls):
+            if self.rng.random() < p:
+                ops += self.bufops(self.rng.randint(1, 2))
+            if self.rng.random() < 0.3:
+                ops.append(("c", 0))
+            ops.append(("-", 0))
+        return ops
+
+    def wrap_script(self, ncalls=5):
+        """each yywrap() call either says stop, or really provides a source"""
+        ops = []
+        for _ in range(ncalls):
+            r = self.rng.random()
+            if r < 0.30: ops += [("T", 1)]
+            elif r < 0.50: ops += [("i", self.rng.randrange(self.nf)), ("T", 0)]
+            elif r < 0.72: ops += [("n", self.rng.randrange(self.nf)), ("w", 0), ("T", 0)]
+            elif r < 0.88: ops += [(self.rng.choice("syz"), self.rng.randrange(self.nf)), ("T", 0)]
+            else:
+                # the manual's pattern: delete the exhausted buffer, then install the next source
+                ops += [("J", 0), (self.rng.choice("sy"), self.rng.randrange(self.nf)), ("T", 0)]
+        return ops
+
+    def after_end(self, n=3):
+        """what the caller does after yylex() returned 0"""
+        ops = []
+        for _ in range(n):
+            r = self.rng.random()
+            if r < 0.3: ops += [("c", 0), ("-", 0)]
+            elif r < 0.6: ops += [("i", self.rng.randrange(self.nf)), ("c", 0), ("-", 0)]
+            elif r < 0.85: ops += [("r", self.rng.randrange(self.nf)), ("c", 0), ("-", 0)]
+            else: ops += [("-", 0)]
+        return ops
